@@ -428,6 +428,13 @@ class Ctx:
     def oblige(self, name, claim, kind="assert", line=None, note=None):
         if isinstance(claim, bool):
             claim = z3.BoolVal(claim)
+        pid = getattr(self.kernel, "current_property", None)
+        if pid is not None and "[" in name:
+            # an obligation whose name carries property tags ("[C03 ...; C18 ...]") belongs to those properties only:
+            # under another property it is neither asserted nor assumed (so it cannot mask anything)
+            tags = set(re.findall(r"C\d\d", " ".join(re.findall(r"\[([^\]]*)\]", name))))
+            if tags and pid not in tags:
+                return
         if self.pure_depth:
             s0 = claim if z3.is_quantifier(claim) else z3.simplify(claim)
             if z3.is_true(s0):
